@@ -15,7 +15,7 @@ SPEC = {
                 3: "dynamic-subscription-under-introspection-only", 4: "static-mutation-typename-under-introspection-only"},
     # n = number of RANDOM documents (each on 12 random configurations) added to the fixed exhaustive family;
     # n >= 500 also switches the fixed family to "every document on all 108 configurations"
-    "n_quick": 60, "n_thorough": 1500,
+    "n_quick": 60, "n_thorough": 240,
     "search_factor": 9,
     "level": "proof",
     "what_violation": "metadata served while introspection is disabled / user resolver ran under introspection-only / __typename not answered with the root type name / response differs from the verified mode table",
